@@ -379,6 +379,9 @@ func rxNontrivial(st *ekit.Stats, format, pat string, body []byte) {
 }
 
 func bodyKey(b []byte) string {
+	if len(b) == 0 {
+		return "empty"
+	}
 	if len(b) <= 4 {
 		return fmt.Sprintf("%x", b)
 	}
@@ -479,14 +482,21 @@ func scenRxFormats(st *ekit.Stats, tier string) {
 		for pi, pat := range rxPatterns {
 			f, pat := f, pat
 			fflag := formatFlags[f][(fi+pi)%len(formatFlags[f])]
+			// verbosity options must not change what is printed
+			extra := [][]string{nil, {"-v"}, {"-q"}, {"--verbose", "--silent"}, {"-vq"}}[(fi*len(rxPatterns)+pi)%5]
 			jobs = append(jobs, func() {
-				rxJob(st, "rx", f, fflag, pat, nil, sentinel, base, nil, &nt)
+				rxJob(st, "rx", f, fflag, pat, extra, sentinel, base, nil, &nt)
 			})
 		}
 	}
-	if tier == "thorough" {
-		// every 2 byte body (all byte pairs) on pull, every format
-		for _, f := range formats {
+	{
+		// every 2 byte body (all byte pairs) on pull; quick: the two context sensitive
+		// text formats, thorough: every format
+		pf := []string{"ascii", "quoted"}
+		if tier == "thorough" {
+			pf = formats
+		}
+		for _, f := range pf {
 			for c := 0; c < 8; c++ {
 				f, c := f, c
 				jobs = append(jobs, func() {
